@@ -105,9 +105,9 @@ theorem daily_results (da : DailyArgs a) (h : construct a = .ok r) (k : Nat) (st
     (hg : DailyGood a r k st) (hle : Spec.RRule.startOrd a + k * a.interval ≤ maxOrdinal) :
     (∃ fl, periodResults r st = .ok (Spec.RRule.sel a (k : Int), none, fl)) ∧
     ∀ x ∈ Spec.RRule.sel a (k : Int), 0 ≤ x.ord ∧ x.ord ≤ maxOrdinal := by
-  have hs := daily_simple da h
-  obtain ⟨bh, bm, bs, hr⟩ := daily_rule da h
-  have hfreq : r.freq = 3 := by rw [hr]
+  have hs := daily_simple da.toDWArgs h
+  obtain ⟨bh, bm, bs, hr⟩ := daily_rule da.toDWArgs h
+  have hfreq : r.freq = 3 := by rw [hr]; exact da.freq
   have hsp : r.bysetpos = none := by rw [hr]
   have hpos := startOrd_pos da
   have hk : (0 : Int) ≤ k * a.interval := Int.mul_nonneg (by omega) (by have := da.interval; omega)
@@ -132,7 +132,7 @@ theorem daily_results (da : DailyArgs a) (h : construct a = .ok r) (k : Nat) (st
         (Spec.RRule.startOrd a + k * a.interval + 1)).filter (Spec.RRule.dateOk a) := by
     apply List.filter_congr
     intro o ho
-    exact simpleOk_eq_dateOk da h o (by have := (mem_intRange _ _ _).mp ho; omega)
+    exact simpleOk_eq_dateOk da.toDWArgs h o (by have := (mem_intRange _ _ _).mp ho; omega)
   refine ⟨⟨fl, ?_⟩, ?_⟩
   · rw [hres, hg.timeset, sel_span a da.bysetpos k _ _ (daily_span da k), hbridge]
   · intro x hx
@@ -145,9 +145,9 @@ theorem daily_next (da : DailyArgs a) (h : construct a = .ok r) (k : Nat) (st : 
     (c : Option Int) (hg : DailyGood a r k st)
     (hle : Spec.RRule.startOrd a + (k + 1 : Nat) * a.interval ≤ maxOrdinal) :
     ∃ st', advance r { st with count := c } fl = .ok st' ∧ DailyGood a r (k + 1) st' := by
-  have hs := daily_simple da h
-  obtain ⟨bh, bm, bs, hr⟩ := daily_rule da h
-  have hfreq : r.freq = 3 := by rw [hr]
+  have hs := daily_simple da.toDWArgs h
+  obtain ⟨bh, bm, bs, hr⟩ := daily_rule da.toDWArgs h
+  have hfreq : r.freq = 3 := by rw [hr]; exact da.freq
   have hint : r.interval = a.interval := by rw [hr]
   have hi := da.interval
   obtain ⟨hm1, hm12, hd1, hd2⟩ := hg.valid
@@ -177,13 +177,13 @@ theorem daily_next (da : DailyArgs a) (h : construct a = .ok r) (k : Nat) (st : 
 /-- the initial state is the state of period 0 -/
 theorem daily_init (da : DailyArgs a) (h : construct a = .ok r) :
     ∃ st0, init r = .ok st0 ∧ DailyGood a r 0 st0 ∧ st0.count = r.count := by
-  have hs := daily_simple da h
+  have hs := daily_simple da.toDWArgs h
   have hv := da.valid
   unfold DT.Valid ValidDate at hv
   obtain ⟨info, hre, hnw, _, _⟩ := rebuild_simple r hs a.dtstart.y a.dtstart.m hv.1.1 hv.1.2.1
-  obtain ⟨bh, bm, bs, hr⟩ := daily_rule da h
+  obtain ⟨bh, bm, bs, hr⟩ := daily_rule da.toDWArgs h
   have hd : r.dtstart = { a.dtstart with us := 0 } := by rw [hr]
-  have hf : r.freq = 3 := by rw [hr]
+  have hf : r.freq = 3 := by rw [hr]; exact da.freq
   have hts : r.timeset = some (Spec.RRule.timesOf a none none none) := by rw [hr]
   refine ⟨{ cur := { year := a.dtstart.y, month := a.dtstart.m, day := a.dtstart.d, hour := a.dtstart.hh,
                      minute := a.dtstart.mm, second := a.dtstart.ss, weekday := r.dtstart.weekday },
@@ -209,10 +209,12 @@ theorem iter_eq_spec_daily (da : DailyArgs a) (h : construct a = .ok r) (n : Nat
       Int.mul_le_mul_of_nonneg_right (by omega) (by omega)
     omega
   have sim : Simulation a r n (DailyGood a r) := {
-    agree := daily_cuts da h
-    results := fun k st hk hg => (daily_results da h k st hg (hmono k (by omega))).1
+    agree := daily_cuts da.toDWArgs h
+    results := fun k st hk hg => by
+      obtain ⟨⟨fl, hres⟩, hb⟩ := daily_results da h k st hg (hmono k (by omega))
+      exact ⟨fl, [], _, hres, rfl, by simp, hb⟩
     next := fun k st fl c hk hg => daily_next da h k st fl c hg (hmono (k + 1) (by omega))
-    bounded := fun k st hk hg => (daily_results da h k st hg (hmono k (by omega))).2 }
+    }
   obtain ⟨st0, hinit, hg0, hc0⟩ := daily_init da h
   exact iter_refines sim st0 hinit hg0 hc0 n (by omega)
 
